@@ -43,23 +43,50 @@ Qed.
 
 Theorem ring_contains_def s p :
   ring_contains s p = true <->
-  (r_amax s - r_amin s < 360 -> r_amin s <= bearing (r_center s) p <= r_amax s) /\
+  (r_amax s - r_amin s < 360 -> Rmod (bearing (r_center s) p - r_amin s) 360 <= r_amax s - r_amin s) /\
   r_inner s <= hdist (r_center s) p <= r_outer s /\
   (forall h, In h (r_holes s) -> h p = false).
 Proof.
   unfold ring_contains. cbv zeta.
-  set (b := bearing (r_center s) p). set (d := hdist (r_center s) p).
+  set (b := Rmod (bearing (r_center s) p - r_amin s) 360). set (d := hdist (r_center s) p).
   destruct (rltb (r_amax s - r_amin s) 360) eqn:W;
-    destruct (rleb (r_amin s) b) eqn:B1; destruct (rleb b (r_amax s)) eqn:B2;
+    destruct (rltb (r_amax s - r_amin s) b) eqn:B1;
     destruct (rleb (r_inner s) d) eqn:D1; destruct (rleb d (r_outer s)) eqn:D2; cbn;
     try apply rltb_true in W; try apply rltb_false in W;
-    try apply rleb_true in B1; try apply rleb_false in B1;
-    try apply rleb_true in B2; try apply rleb_false in B2;
+    try apply rltb_true in B1; try apply rltb_false in B1;
     try apply rleb_true in D1; try apply rleb_false in D1;
     try apply rleb_true in D2; try apply rleb_false in D2;
     rewrite ?negb_true_iff, ?in_holes_false;
     (split; [try discriminate; intros H; repeat split; try assumption; try lra; intros; lra
             |intros (H1 & H2 & H3); try assumption; try (specialize (H1 W)); lra]).
+Qed.
+
+(* what the modular comparison means: the bearing, read modulo full turns, lies in the angle range
+   (ranges through north such as 350..370 or -10..10 included) *)
+Theorem wedge_angle_spec (amin amax b : R) :
+  0 <= amax - amin < 360 ->
+  (Rmod (b - amin) 360 <= amax - amin <-> exists n : Z, amin <= b + 360 * IZR n <= amax).
+Proof.
+  intros Hw. split.
+  - intros H. exists (- Int_part ((b - amin) / 360))%Z. unfold Rmod in H.
+    pose proof (Rmod_range (b - amin) 360 ltac:(lra)) as R0. unfold Rmod in R0.
+    rewrite opp_IZR. lra.
+  - intros [n Hn]. rewrite (Rmod_eq (b - amin) 360 (- n)%Z); [|lra|]; rewrite opp_IZR; lra.
+Qed.
+
+(* with a range inside one turn starting in [0, 360) and a bearing in [0, 360), this is the plain
+   comparison the documentation describes *)
+Corollary wedge_angle_plain (amin amax b : R) :
+  0 <= amin -> amin <= amax -> amax <= 360 -> amax - amin < 360 -> 0 <= b < 360 ->
+  (Rmod (b - amin) 360 <= amax - amin <-> (amin <= b <= amax \/ amin <= b + 360 <= amax)).
+Proof.
+  intros H0 H1 H2 Hw Hb. rewrite (wedge_angle_spec amin amax b) by lra. split.
+  - intros [n Hn].
+    assert (Hn' : (n = 0 \/ n = 1)%Z).
+    { assert (-1 < IZR n < 2) by lra. destruct H as [Ha Hc].
+      apply lt_IZR in Hc. change (-1) with (IZR (-1)) in Ha. apply lt_IZR in Ha. lia. }
+    destruct Hn' as [->| ->]; [left|right]; lra.
+  - intros [H|H]; [exists 0%Z|exists 1%Z]; lra.
 Qed.
 
 (* ---------------------------------------------------------------- the ellipse radius *)
